@@ -80,6 +80,7 @@ func (hs *heightSub) Wait(ctx context.Context, height uint64) error {
 	if hs.Height() >= height {
 		return errElapsedHeight
 	}
+	verifYield("heightsub:wait")
 
 	hs.heightSubsLk.Lock()
 	if hs.Height() >= height {
